@@ -73,10 +73,11 @@ def _body_tcr(nrows, lens, chain, trimmed, k):
             if (i, j) in seen or i == j or not (0 <= i < nrows and 0 <= j < nrows):
                 return False, (lambda: f"bad/repeated pair in {_realize(rows)}")
             seen[(i, j)] = row[2]
-        # the CDR3 part: one recorded pwseqdist call per chain, on the UNtrimmed CDR3 column, with pyrepseq's documented parameters
+        # the CDR3 part: at most one recorded pwseqdist call per chain (a chain may be skipped when nothing can survive: what is reported is
+        # decided by the value oracle below), on the UNtrimmed CDR3 column, with pyrepseq's documented parameters
         if seen or True:
             expect_kw = dict(use_numba=True, fixed_gappos=False, ntrim=3, ctrim=2, dist_weight=3, gap_penalty=12)
-            if pw_model.CALLS and (len(pw_model.CALLS) != len(chains) or any(c["kw"] != expect_kw or c["metric"] != "nb_vector_tcrdist" for c in pw_model.CALLS)):
+            if pw_model.CALLS and (len(pw_model.CALLS) > len(chains) or any(c["kw"] != expect_kw or c["metric"] != "nb_vector_tcrdist" for c in pw_model.CALLS)):
                 return False, f"pwseqdist called with {[(c['metric'], c['kw']) for c in pw_model.CALLS]}"
         conds = []
         for i in range(nrows):
@@ -101,8 +102,23 @@ def _replay_tcr(nrows, lens, chain, trimmed, k):
         import pandas as pd
         from pyrepseq import nn
         from models.pw_model import ConcretePw
-        nn.pwseqdist = ConcretePw
         chains = ["beta", "alpha"] if chain == "both" else [chain]
+
+        def cdr3_dist(tag, i, j, a, b):
+            """the CDR3 distance of the witness (pwseqdist is an arbitrary non-negative distance on the solver side); the deterministic
+            stand-in where the witness leaves a pair open"""
+            key = f"pw{tag}_{min(i, j)}_{max(i, j)}"
+            return float(int(inputs[key])) if key in inputs and i != j else float(ConcretePw.dist(a, b))
+
+        class WitnessPw:
+            metrics = ConcretePw.metrics
+            ncalls = 0
+
+            @classmethod
+            def apply_pairwise_sparse(cls, metric=None, seqs=None, pairs=None, **kw):
+                cls.ncalls += 1
+                return np.array([cdr3_dist(cls.ncalls, int(i), int(j), seqs[int(i)], seqs[int(j)]) for i, j in pairs], dtype=float)
+        nn.pwseqdist = WitnessPw
         cols, genes, cdr3 = {}, {}, {}
         for ch in chains:
             L = ch[0].upper()
@@ -121,7 +137,7 @@ def _replay_tcr(nrows, lens, chain, trimmed, k):
         for i in range(nrows):
             for j in range(nrows):
                 if i != j and hc.lev(search[i], search[j]) <= k:
-                    total = sum(_vtable(ch).loc[genes[ch][i], genes[ch][j]] + ConcretePw.dist(cdr3[ch][i], cdr3[ch][j]) for ch in chains)
+                    total = sum(_vtable(ch).loc[genes[ch][i], genes[ch][j]] + cdr3_dist(t + 1, i, j, cdr3[ch][i], cdr3[ch][j]) for t, ch in enumerate(chains))
                     if total <= mt:
                         want.add((i, j, float(total)))
         rows = [(int(r[0]), int(r[1]), float(r[2])) for r in np.asarray(got).reshape(-1, 3)] if len(got) else []
